@@ -145,6 +145,10 @@ pub fn mutate(w: &Witness, f: &Fault, site: (usize, usize, Option<usize>)) -> Mu
             p.words[wi].bytes = wb;
             let off = p.word_rel_offset(wi) - 64;
             p.packet.payload[off..off + 10].copy_from_slice(&wb);
+            if f.name == "ihw.lane of the first data word switched off" {
+                // the consequence shows at the data word, not at the IHW
+                site_word = p.words.iter().position(|x| x.kind == WKind::Data && words::is_valid_data_id(x.bytes[9]));
+            }
         }
         Site::Padding => {
             let p = &mut links[li][pi];
